@@ -6,6 +6,7 @@ from picosvg.geometric_types import Rect, Point
 from common import *
 
 COQ_TARGETS = ['props/C11.vo']
+ALWAYS_JUDGE = True      # the float-side laws (decomposition branches, transform strings) are judged on every run
 RULE = ("arithmetic: random Fraction 6-tuples/points/rect pairs through implementation (which accepts Fractions) and "
         "the generated model over Q, exact equality; non-trivial = a list with >=2 non-commuting transforms, "
         "a non-identity inverse, or a rect pair with different aspect ratios")
